@@ -133,7 +133,7 @@ func l17Body[P curves.Point[P, B, S], B algebra.PrimeFieldElement[B], S algebra.
 		var pks [][]byte
 		for _, seed := range seeds() {
 			if !c.dkg {
-				st := newSite("lindell17-dealer", fmt.Sprintf("lindell17-dealer/%s/%s/ids=%s/seed=%d", g.name, c.e.Name, c.ids.Name, seed), c.e.P)
+				st := newSite("lindell17-dealer", fmt.Sprintf("lindell17-dealer/%s/%s/ids=%s/seed=%d", g.name, c.e.Name, c.ids.Name, seed), c.e.P, nil)
 				x.Case(st.where)
 				shards, epk, err := proto.Lindell17Deal(curve, ac, l17KeyLen, seed)
 				if err != nil {
@@ -147,7 +147,7 @@ func l17Body[P curves.Point[P, B, S], B algebra.PrimeFieldElement[B], S algebra.
 				pks = append(pks, pk)
 				continue
 			}
-			st := newSite("lindell17-dkg", fmt.Sprintf("lindell17-dkg/%s/%s/ids=%s/seed=%d", g.name, c.e.Name, c.ids.Name, seed), c.e.P)
+			st := newSite("lindell17-dkg", fmt.Sprintf("lindell17-dkg/%s/%s/ids=%s/seed=%d", g.name, c.e.Name, c.ids.Name, seed), c.e.P, nil)
 			x.Case(st.where)
 			base, err := proto.Deal(g.group, ac, seed, "c03-l17")
 			if err != nil {
@@ -202,10 +202,10 @@ func lindell17Sections() {
 		}
 	}
 	if onlyMatch("lindell17-dealer/k256") {
-		engine.Explore(l17Body(gK256, k256.NewCurve(), deal, 0), engine.Opts{Name: "lindell17-dealer/k256", Budget: engine.Budget(2*time.Minute, 10*time.Minute)})
+		engine.Explore(l17Body(gK256, k256.NewCurve(), deal, 0), engine.Opts{Name: "lindell17-dealer/k256", Budget: engine.Budget(4*time.Minute, 15*time.Minute)})
 	}
 	if onlyMatch("lindell17-dealer/p256") {
-		engine.Explore(l17Body(gP256, p256.NewCurve(), []l17cfg{{e: t23, ids: ordOf(3)}, {e: cnf3, ids: ordOf(3)}}, 0), engine.Opts{Name: "lindell17-dealer/p256", Budget: engine.Budget(2*time.Minute, 10*time.Minute)})
+		engine.Explore(l17Body(gP256, p256.NewCurve(), []l17cfg{{e: t23, ids: ordOf(3)}, {e: cnf3, ids: ordOf(3)}}, 0), engine.Opts{Name: "lindell17-dealer/p256", Budget: engine.Budget(4*time.Minute, 15*time.Minute)})
 	}
 	if engine.Thorough() && onlyMatch("lindell17-dkg/k256") {
 		var t22 catalog.Entry
@@ -215,6 +215,6 @@ func lindell17Sections() {
 			}
 		}
 		dkg := []l17cfg{{e: t22, ids: ordOf(2), dkg: true}, {e: t23, ids: ordOf(3), dkg: true}, {e: cnf3, ids: ordOf(3), dkg: true}}
-		engine.Explore(l17Body(gK256, k256.NewCurve(), dkg, 3), engine.Opts{Name: "lindell17-dkg/k256", Serial: true, Procs: 3, CrashTrace: true, Engine: "SCHED", Budget: engine.Budget(3*time.Minute, 20*time.Minute)})
+		engine.Explore(l17Body(gK256, k256.NewCurve(), dkg, 3), engine.Opts{Name: "lindell17-dkg/k256", Serial: true, Procs: 3, CrashTrace: true, Engine: "SCHED", Budget: engine.Budget(5*time.Minute, 30*time.Minute)})
 	}
 }
